@@ -54,7 +54,7 @@ def gen_prior_stmt(rng, h):
 
 
 CLS_ARGS = {
-    "P0": [],
+    "P0": [], "P1b": ["a"], "P2b": ["a", "b"],
     "P1": ["a"],
     "P2": ["a", "b"],
     "P3": ["a", "b", "c"],
